@@ -23,8 +23,12 @@ import (
 	"go.opentelemetry.io/otel/exporters/otlp/otlptrace"
 	"go.opentelemetry.io/otel/exporters/otlp/otlptrace/otlptracegrpc"
 	"go.opentelemetry.io/otel/exporters/otlp/otlptrace/otlptracehttp"
+	"go.opentelemetry.io/otel/exporters/stdout/stdoutlog"
+	"go.opentelemetry.io/otel/exporters/stdout/stdoutmetric"
+	"go.opentelemetry.io/otel/exporters/stdout/stdouttrace"
 	"go.opentelemetry.io/otel/exporters/zipkin"
 	sdklog "go.opentelemetry.io/otel/sdk/log"
+	sdkmetric "go.opentelemetry.io/otel/sdk/metric"
 	"go.opentelemetry.io/otel/sdk/metric/metricdata"
 	sdktrace "go.opentelemetry.io/otel/sdk/trace"
 	collogpb "go.opentelemetry.io/proto/otlp/collector/logs/v1"
@@ -103,10 +107,15 @@ type Loop struct {
 	httpc chan httpBody
 
 	// per signal: [grpc, http, grpc+gzip, http+gzip]
-	traceExps          []*otlptrace.Exporter
-	metricExps         []metricExporter
-	logExps            []logExporter
-	zip                *zipkin.Exporter
+	traceExps  []*otlptrace.Exporter
+	metricExps []metricExporter
+	logExps    []logExporter
+	zip        *zipkin.Exporter
+	// stdout exporters write into soBuf
+	soBuf              bytes.Buffer
+	soTrace            *stdouttrace.Exporter
+	soMetric           sdkmetric.Exporter
+	soLog              *stdoutlog.Exporter
 	grpcAddr, httpAddr string
 }
 
@@ -222,6 +231,15 @@ func NewLoop() (*Loop, error) {
 			return nil, err
 		}
 		l.logExps = append(l.logExps, l1, l2)
+	}
+	if l.soTrace, err = stdouttrace.New(stdouttrace.WithWriter(&l.soBuf)); err != nil {
+		return nil, err
+	}
+	if l.soMetric, err = stdoutmetric.New(stdoutmetric.WithWriter(&l.soBuf)); err != nil {
+		return nil, err
+	}
+	if l.soLog, err = stdoutlog.New(stdoutlog.WithWriter(&l.soBuf)); err != nil {
+		return nil, err
 	}
 	l.zip, err = zipkin.New("http://"+l.httpAddr+"/api/v2/spans", zipkin.WithClient(&http.Client{Timeout: exportTimeout}))
 	if err != nil {
@@ -433,3 +451,34 @@ func sameMetric(a, b []*metricpb.ResourceMetrics) bool {
 	return bytes.Equal(sortedEnc(a), sortedEnc(b))
 }
 func sameLog(a, b []*logpb.ResourceLogs) bool { return bytes.Equal(sortedEnc(a), sortedEnc(b)) }
+
+// ---- stdout exporters: the printed JSON, or ok=false when the exporter refused the batch
+// (encoding/json cannot print NaN / Inf)
+
+func (l *Loop) StdoutTrace(spans []sdktrace.ReadOnlySpan) ([]byte, bool) {
+	l.soBuf.Reset()
+	if err := l.soTrace.ExportSpans(context.Background(), spans); err != nil {
+		return nil, false
+	}
+	return append([]byte(nil), l.soBuf.Bytes()...), true
+}
+
+func (l *Loop) StdoutMetric(rm *metricdata.ResourceMetrics) ([]byte, bool) {
+	l.soBuf.Reset()
+	if err := l.soMetric.Export(context.Background(), rm); err != nil {
+		return nil, false
+	}
+	return append([]byte(nil), l.soBuf.Bytes()...), true
+}
+
+func (l *Loop) StdoutLog(recs []sdklog.Record) ([]byte, bool) {
+	l.soBuf.Reset()
+	cp := make([]sdklog.Record, len(recs))
+	for i := range recs {
+		cp[i] = recs[i].Clone()
+	}
+	if err := l.soLog.Export(context.Background(), cp); err != nil {
+		return nil, false
+	}
+	return append([]byte(nil), l.soBuf.Bytes()...), true
+}
